@@ -103,18 +103,17 @@ func (m *MVCCHelper) PrintAll() {
 func (m *MVCCHelper) Trash(version int64) error {
 	it := m.db.Iterator(mvccData, nil, true)
 	defer it.Close()
-	perfixkey := []byte("--.xxx.--")
+	var curkey []byte
 	for it.Rewind(); it.Valid(); it.Next() {
 		if it.Error() != nil {
 			mvcclog.Error("Trash", "error", it.Error())
 			return it.Error()
 		}
 		//如果进入一个新的key, 这个key 忽略，不删除，也就是至少保留一个
-		if !bytes.HasPrefix(it.Key(), perfixkey) {
-			perfixkey = cutVersion(it.Key())
-			if perfixkey == nil {
-				perfixkey = []byte("--.xxx.--")
-			}
+		//必须完整比较key, 一个key 可能是另一个key 的前缀
+		rawkey := cutVersion(it.Key())
+		if curkey == nil || !bytes.Equal(rawkey, curkey) {
+			curkey = rawkey
 			continue
 		}
 		//第二个key
@@ -296,20 +295,71 @@ func (m *SimpleMVCC) GetV(key []byte, version int64) ([]byte, error) {
 	if err != nil {
 		return nil, err
 	}
-	vals, err := m.kvdb.List(prefix, search, 1, ListSeek)
-	if err != nil {
-		return nil, err
+	for {
+		vals, err := m.kvdb.List(prefix, search, 1, ListSeek)
+		if err != nil {
+			return nil, err
+		}
+		k := vals[0]
+		if !isVersionKey(prefix, k) {
+			//k 属于另一个以 key+"." 开头的更长的key, 跳过它继续向下查找
+			search = floorVersionKey(prefix, k)
+			if search == nil {
+				return nil, types.ErrNotFound
+			}
+			continue
+		}
+		v, err := getVersion(k)
+		if err != nil {
+			return nil, err
+		}
+		if v > version {
+			return nil, types.ErrVersion
+		}
+		return vals[1], nil
 	}
-	k := vals[0]
-	val := vals[1]
-	v, err := getVersion(k)
-	if err != nil {
-		return nil, err
+}
+
+// isVersionKey k 是否正好是 prefix + 20位版本号
+func isVersionKey(prefix, k []byte) bool {
+	if len(k) != len(prefix)+20 || !bytes.HasPrefix(k, prefix) {
+		return false
 	}
-	if v > version {
-		return nil, types.ErrVersion
+	for _, c := range k[len(prefix):] {
+		if c < '0' || c > '9' {
+			return false
+		}
 	}
-	return val, nil
+	return true
+}
+
+// floorVersionKey 返回小于k的最大的 prefix + 20位版本号, 不存在时返回nil
+func floorVersionKey(prefix, k []byte) []byte {
+	if !bytes.HasPrefix(k, prefix) {
+		return nil
+	}
+	rem := k[len(prefix):]
+	d := []byte("99999999999999999999")
+	i := 0
+	for i < 20 && i < len(rem) && rem[i] >= '0' && rem[i] <= '9' {
+		d[i] = rem[i]
+		i++
+	}
+	if i < 20 && (i >= len(rem) || rem[i] < '0') {
+		//需要前i位减一
+		j := i - 1
+		for j >= 0 && d[j] == '0' {
+			d[j] = '9'
+			j--
+		}
+		if j < 0 {
+			return nil
+		}
+		d[j]--
+	}
+	result := make([]byte, 0, len(prefix)+20)
+	result = append(result, prefix...)
+	return append(result, d...)
 }
 
 // AddMVCC add keys in a version
